@@ -95,6 +95,7 @@ DOCS_QUICK: List[Tuple[str, bytes, str]] = [
     ("scalars", b'["ax", "b", null, true, 1.5, "x", [1, 2], {"a": 3, "b": 4, "c": 5}]', "ok"),
     ("non-ascii", '{"é": "ü", "☺": [1, "😀"], "名前": "x", "a": "ü", "b": ["😀", {"a": 2}]}'.encode("utf-8"), "ok"),
     ("escaped-non-ascii", b'{"\\u00e9": "\\u00fc", "a": "\\ud83d\\ude00", "b": ["\\u00fc"]}', "ok"),
+    ("lone-surrogate-escape", b'{"a": "caf\\u00e9 \\ud83d", "b": ["\\udc00x", {"a": 2}], "\\ud800": 1}', "ok"),
     ("deep-object-150", _deep(DEEP, False), "ok"),
     ("deep-array-150", _deep(DEEP, True), "ok"),
     ("invalid-json", b'{"a": 1,}', "invalid-json-document"),
